@@ -11,29 +11,43 @@ import re
 from .common import Ctx, Driver, CORPUS
 
 MANIFEST = dict(
-    text=("Lean theorems over the tables generated from the live bs4: for each of the 32 bytes 0x80-0x9F, the three carrier "
-          "encodings and modes xml/html, un-escaping the emitted reference gives the byte's Windows-1252 character "
-          "(xml_/html_reference_denotes_cp1252; the five bytes cp1252 leaves undefined get a plain placeholder), ascii emits the "
-          "documented substitute, no mode / a non-carrier encoding is plain decoding, conversion is byte-wise for whole inputs "
-          "(smart_quotes_preserve_characters); detwingle: the Python index loop refines a structural scan (detwingleImpl_refines), "
-          "terminates (detwingle_total), returns every valid UTF-8 byte list unchanged (detwingle_valid_id, and detwingle_inert_id "
-          "for anything made of lead-byte-sized chunks), and maps UTF-8 text with embedded convertible cp1252 bytes to the valid "
-          "UTF-8 of the text with each byte replaced by its character (detwingle_embedded, _valid; "
-          "table_agrees_with_cp1252_where_reachable, lead_byte_entries_are_dead). Tie: exhaustive 32 bytes x 4 modes x carrier and "
-          "non-carrier encodings through UnicodeDammit against model and oracle, random whole inputs, every scalar value through "
-          "detwingle (thorough; stride in quick), random interleavings with every convertible byte, arbitrary bytes, and the Lean "
-          "UTF-8 decoder / un-escaper against CPython's."),
+    text=("Lean theorems over tables generated from the live bs4 (MS_CHARS, MS_CHARS_TO_ASCII, ENCODINGS_WITH_SMART_QUOTES, CHARSET_ALIASES, "
+          "WINDOWS_1252_TO_UTF8, MULTIBYTE_MARKERS_AND_SIZES) and from CPython (single-byte decoders, codec registry on a finite universe of "
+          "spellings, html5 names). Smart quotes: for the 32 bytes x 3 carriers x xml/html the emitted reference un-escapes to the byte's "
+          "cp1252 character (xml_/html_reference_denotes_cp1252), undefined bytes get a placeholder, ascii emits the pinned documented "
+          "substitutes (ascii_substitutes_are_the_documented_ones), no mode / non-carrier = plain decoding; lifted to every byte string "
+          "(smart_quotes_preserve_characters, unescaping_the_conversion_gives_the_characters, windows1252_conversion_unescapes_to_plain_decoding) "
+          "and to the observable constructor for every spelling find_codec resolves to a carrier, every BOM/declaration/extra encodings "
+          "(constructor_preserves_characters, constructor_ascii_substitutes, stripBom_removes_only_a_bom, call_outcome_independent_of_history). "
+          "detwingle, for ALL byte lists: the Python index loop refines a structural scan (detwingleImpl_refines), terminates, only replaces "
+          "embeddable bytes by their table value (detwingle_only_replaces_embedded_bytes), is idempotent, its result is valid UTF-8 iff the "
+          "input is UTF-8 text with embedded cp1252 bytes (detwingle_output_valid_iff), identity on valid UTF-8 (detwingle_valid_id, "
+          "detwingle_inert_id), embedded bytes become their characters (detwingle_embedded); whole-table obligations with a "
+          "standards-based notion of embeddable byte (embeddable_bytes_converted, convertible_iff_embeddable, windows1252_table_whole). "
+          "Tie: histories of calls in one process vs the same call in a pristine forked process (with the property oracle on both), a "
+          "spelling grid, exhaustive 32 x 4 x encodings, random documents with BOMs/declarations/tags, every scalar value through detwingle "
+          "(thorough; stride in quick), interleavings with every embeddable byte, arbitrary bytes with the all-input clauses checked "
+          "directly on the real code, Lean UTF-8 decoder / un-escapers against CPython's."),
     design="7/C19",
-    note=("Inputs to UnicodeDammit carry no BOM and no '<' (no in-document declaration), chardet absent: the candidate order is "
-          "known, utf-8, windows-1252. Bytes 81 8D 8F 90 9D denote no cp1252 character and are outside the claim (recorded). "
-          "detwingle never converts bytes C2-F4 (UTF-8 lead bytes: ambiguous, read as UTF-8); every other byte >= 0x80 that Windows-1252 defines is 'convertible', whatever the library's tables say."),
-    technique="Lean 4 proofs (kernel-decided table obligations + induction over character decomposition + loop refinement) with exhaustive/random correspondence and a direct oracle",
+    note=("The model covers the whole constructor for bytes input (BOM stripping, candidate order, find_codec, tried_encodings, both passes); "
+          "what find_declared_encoding returns is a parameter of the model (theorems hold for every value; the harness passes the real one; "
+          "the regex itself is C07's), chardet absent, user/exclude encodings empty. Codecs the model does not decode byte by byte (UTF-16/32, "
+          "multi-byte, UTF-8 with errors=replace) make the model answer 'beyond' and the case is counted, not compared. Bytes 81 8D 8F 90 9D "
+          "denote no cp1252 character and are outside the claim (recorded). Spellings other than the three documented names in any letter "
+          "case (ISO_8859-1, latin-1, cp1252, ...) are not treated as carriers by the code (name comparison, dammit.py:942): outside the "
+          "statement, modelled as is, recorded in evidence. detwingle never converts bytes C2-F4 (UTF-8 lead bytes: read as UTF-8)."),
+    technique="Lean 4 proofs (kernel-decided whole-table obligations + induction over byte lists + loop refinement) with history/exhaustive/random correspondence and a direct oracle",
 )
 
 MODES = [None, "xml", "html", "ascii"]
 # "the three encodings treated as smart-quote carriers" (property text; dammit.py:924-928)
 DOCUMENTED_CARRIERS = ["windows-1252", "iso-8859-1", "iso-8859-2"]
 NON_CARRIERS = ["latin-1", "cp1252", "iso-8859-5"]
+# the documented plain substitutes (bs4 4.13.0 source documentation of MS_CHARS_TO_ASCII, keys 0x80-0x9F), pinned here
+DOCUMENTED_ASCII = {0x80: "EUR", 0x81: " ", 0x82: ",", 0x83: "f", 0x84: ",,", 0x85: "...", 0x86: "+", 0x87: "++", 0x88: "^", 0x89: "%",
+                    0x8A: "S", 0x8B: "<", 0x8C: "OE", 0x8D: "?", 0x8E: "Z", 0x8F: "?", 0x90: "?", 0x91: "'", 0x92: "'", 0x93: '"',
+                    0x94: '"', 0x95: "*", 0x96: "-", 0x97: "--", 0x98: "~", 0x99: "(TM)", 0x9A: "s", 0x9B: ">", 0x9C: "oe", 0x9D: "?",
+                    0x9E: "z", 0x9F: "Y"}
 XML_REF = re.compile(r"&#x([0-9A-Fa-f]+);\Z")
 HTML_REF = re.compile(r"&#?\w+;\Z")
 
@@ -59,18 +73,51 @@ def cp1252_char(b):
         return None
 
 
-def real_markup(data: bytes, enc: str, mode):
+def real_dammit(data: bytes, known, mode):
+    """(unicode_markup, contains_replacement_characters, original_encoding) of the real constructor."""
     from bs4.dammit import UnicodeDammit
-    d = UnicodeDammit(data, [enc], smart_quotes_to=mode)
-    return d.unicode_markup, bool(d.contains_replacement_characters)
+    d = UnicodeDammit(data, list(known), smart_quotes_to=mode)
+    return d.unicode_markup, bool(d.contains_replacement_characters), d.original_encoding
 
 
-def show_markup(u, repl):
-    return ("none" if u is None else "some " + S(u)) + f" repl={1 if repl else 0}"
+def real_markup(data: bytes, enc: str, mode):
+    return real_dammit(data, [enc], mode)[:2]
 
 
-def markup_line(data, enc, mode):
-    return f"c19 markup {S(enc)} {mode or 'none'} {L(data)}"
+def show_dammit(u, repl, orig):
+    if u is None:
+        return "failed"
+    return f"ok {S(u)} repl={1 if repl else 0} enc={'none' if orig is None else S(orig)}"
+
+
+def declared_of(data: bytes):
+    """What the document declares (the model takes it as a parameter; its theorems hold for every value)."""
+    from bs4.dammit import EncodingDetector
+    stripped, _ = EncodingDetector.strip_byte_order_mark(data)
+    return EncodingDetector.find_declared_encoding(stripped, False)
+
+
+def dammit_line(data, known, mode):
+    d = declared_of(data) if data else None
+    return f"c19 dammit {';'.join(S(k) for k in known) if known else '-'} {S(d) if d else '-'} {mode or 'none'} {L(data)}"
+
+
+def model_agrees(expected: str, reply: str):
+    """None = the model does not decide this case (a codec it does not decode, or a spelling outside the generated universe)."""
+    if reply.endswith(" listed=0") or reply.startswith("beyond"):
+        return None
+    return reply == expected + " listed=1"
+
+
+def strip_bom_oracle(data: bytes):
+    """The documented byte-order marks, written down independently of the code under test."""
+    if data[:2] in (b"\xfe\xff", b"\xff\xfe") and data[2:4] != b"\x00\x00":
+        return data[2:]
+    if data[:3] == b"\xef\xbb\xbf":
+        return data[3:]
+    if data[:4] in (b"\x00\x00\xfe\xff", b"\xff\xfe\x00\x00"):
+        return data[4:]
+    return data
 
 
 def carriers():
@@ -85,8 +132,8 @@ def smart_oracle(b: int, enc: str, mode, out):
     from bs4.dammit import UnicodeDammit
     ch = cp1252_char(b)
     if mode == "ascii":
-        want = UnicodeDammit.MS_CHARS_TO_ASCII.get(bytes([b]))
-        ok = want is not None and out == want and out != "" and all(" " <= c <= "~" for c in out)
+        want = DOCUMENTED_ASCII[b]
+        ok = out == want
         return ok, f"documented ASCII substitute {want!r}"
     if mode is None:
         if enc == "windows-1252":
@@ -133,6 +180,49 @@ def real_detwingle(data: bytes):
     return UnicodeDammit.detwingle(data)
 
 
+def parses_as_text_with_embedded_bytes(data: bytes, conv) -> bool:
+    """Is `data` a concatenation of well-formed UTF-8 characters and single embeddable Windows-1252 bytes?  (The two
+    kinds cannot be confused: an embeddable byte is never a UTF-8 lead byte or an ASCII byte.)  Written with CPython's
+    decoder only."""
+    i, n = 0, len(data)
+    while i < n:
+        b = data[i]
+        if b < 0x80:
+            i += 1
+            continue
+        size = 2 if 0xC2 <= b <= 0xDF else 3 if 0xE0 <= b <= 0xEF else 4 if 0xF0 <= b <= 0xF4 else 0
+        if size:
+            if py_utf8_decode(data[i:i + size]) is None or len(data[i:i + size]) < size:
+                return False
+            i += size
+        elif b in conv:
+            i += 1
+        else:
+            return False
+    return True
+
+
+def replaced_only(data: bytes, out: bytes, conv) -> bool:
+    """`out` is `data` with some embeddable bytes replaced by the UTF-8 of their Windows-1252 character, nothing else
+    changed (dynamic programme over the two strings; independent of how the scan walks)."""
+    reach = {(0, 0)}
+    for i, b in enumerate(data):
+        nxt = set()
+        for (pi, po) in reach:
+            if pi != i:
+                continue
+            if po < len(out) and out[po] == b:
+                nxt.add((i + 1, po + 1))
+            if b in conv:
+                rep = cp1252_char(b).encode("utf-8")
+                if out[po:po + len(rep)] == rep:
+                    nxt.add((i + 1, po + len(rep)))
+        reach = nxt
+        if not reach:
+            return False
+    return (len(data), len(out)) in reach
+
+
 def py_utf8_decode(data: bytes):
     try:
         return data.decode("utf-8")
@@ -157,6 +247,122 @@ def whole_input_oracle(data, enc, mode, piece):
         else:
             parts.append(bytes([b]).decode(enc))
     return "".join(parts), bad
+
+
+# ----------------------------------------------------------------------------------------------
+# a pristine bs4 in a child process: every request is answered by a fork of the freshly imported state
+# ----------------------------------------------------------------------------------------------
+SERVER_SRC = r'''
+import sys, os, json, logging
+sys.path.insert(0, sys.argv[1])
+logging.getLogger("bs4.dammit").setLevel(logging.ERROR)
+import warnings
+warnings.simplefilter("ignore")
+import bs4
+from bs4 import BeautifulSoup
+from bs4.dammit import UnicodeDammit, EncodingDetector
+
+def call(c):
+    k = c["k"]
+    if k == "ud":
+        d = UnicodeDammit(bytes(c["b"]), list(c["known"]), smart_quotes_to=c["mode"])
+        return [d.unicode_markup, bool(d.contains_replacement_characters), d.original_encoding, list(d.markup) if isinstance(d.markup, (bytes, bytearray)) else repr(d.markup)]
+    if k == "det":
+        return list(UnicodeDammit.detwingle(bytes(c["b"])))
+    if k == "soup":
+        soup = BeautifulSoup(bytes(c["b"]), "html.parser", from_encoding=c.get("enc"))
+        return [soup.original_encoding, soup.decode()]
+    if k == "fc":
+        return UnicodeDammit(b"x").find_codec(c["name"])
+    raise ValueError(k)
+
+def safe(c):
+    try:
+        return call(c)
+    except Exception as e:
+        return {"exc": type(e).__name__}
+
+for line in sys.stdin:
+    req = json.loads(line)
+    r, w = os.pipe()
+    pid = os.fork()
+    if pid == 0:
+        os.close(r)
+        out = json.dumps([safe(c) for c in req]).encode()
+        while out:
+            n = os.write(w, out)
+            out = out[n:]
+        os._exit(0)
+    os.close(w)
+    chunks = []
+    while True:
+        d = os.read(r, 65536)
+        if not d:
+            break
+        chunks.append(d)
+    os.close(r)
+    os.waitpid(pid, 0)
+    sys.stdout.write(b"".join(chunks).decode() + "\n")
+sys.stdout.flush()
+'''
+
+
+def pristine(requests):
+    """requests: list of call lists. Each list is run, in order, in ONE fork of a process that has imported bs4 and done
+    nothing else. Returns the list of result lists."""
+    import subprocess, sys
+    from .common import REPO
+    if not requests:
+        return []
+    p = subprocess.run([sys.executable, "-c", SERVER_SRC, str(REPO)], input="".join(json.dumps(r) + "\n" for r in requests),
+                       capture_output=True, text=True)
+    out = [json.loads(l) for l in p.stdout.splitlines() if l.strip()]
+    if p.returncode != 0 or len(out) != len(requests):
+        raise RuntimeError(f"pristine server failed rc={p.returncode} got={len(out)}/{len(requests)} stderr={p.stderr[-400:]}")
+    return out
+
+
+# spellings of the carrier names (and relatives) that CPython accepts, for histories and the spelling grid
+SPELLINGS = ["windows-1252", "WINDOWS-1252", "Windows-1252", "windows_1252", "Windows_1252", "WINDOWS_1252", "windows1252", "cp1252", "CP1252", "Cp1252",
+             "iso-8859-1", "ISO-8859-1", "Iso-8859-1", "ISO_8859-1", "iso_8859-1", "iso8859-1", "ISO8859-1", "iso-8859_1", "latin-1", "LATIN-1", "latin1",
+             "Latin1", "l1", "iso-ir-100", "IBM819", "cp819", "iso88591",
+             "iso-8859-2", "ISO-8859-2", "Iso-8859-2", "ISO_8859-2", "iso_8859-2", "iso8859_2", "latin-2", "l2", "iso-ir-101",
+             "utf-8", "UTF-8", "utf8", "macintosh", "mac-roman", "ascii", "iso-8859-15", "bogus-enc"]
+
+
+def expected_carrier(spelling: str) -> bool:
+    """By the property text: the three named encodings, in any letter case (names are case-insensitive)."""
+    return spelling.lower() in DOCUMENTED_CARRIERS
+
+
+def markup_attr_oracle(call, result):
+    """`UnicodeDammit.markup` is documented as the original markup with any byte-order mark stripped."""
+    if isinstance(result, dict) or len(result) < 4:
+        return None
+    want = list(strip_bom_oracle(bytes(call["b"])))
+    if result[3] != want:
+        return ("UnicodeDammit.markup is not the input with its byte-order mark stripped", want)
+    return None
+
+
+def ud_call_oracle(call, result, piece):
+    """The property for one UnicodeDammit call whose first known encoding is a documented carrier (any letter case) with a
+    mode set: in-order concatenation of each byte's conversion over the BOM-stripped input. Returns None if satisfied /
+    not applicable, else (what, expected)."""
+    known, mode, data = call["known"], call["mode"], bytes(call["b"])
+    if not known or not expected_carrier(known[0]) or mode is None or not data:
+        return None
+    if isinstance(result, dict):
+        return ("the constructor raised " + result.get("exc", "?"), "a converted string")
+    u, repl, orig = result[:3]
+    enc = known[0].lower()
+    want, badb = whole_input_oracle(strip_bom_oracle(data), enc, mode, piece)
+    if badb:
+        return (f"the conversion of byte(s) {[hex(b) for b in badb]} does not denote their Windows-1252 character",
+                "each byte 0x80-0x9F replaced by a reference to / substitute for its cp1252 character")
+    if u != want or repl:
+        return ("bytes 0x80-0x9F were not converted as requested (result is not the in-order concatenation of each byte's conversion)", want)
+    return None
 
 
 _LIMIT = {}
@@ -210,6 +416,43 @@ def rand_smart_input(r):
     return bytes(b for b in out if b != 0x3C)
 
 
+BOMS = [b"\xef\xbb\xbf", b"\xff\xfe", b"\xfe\xff", b"\x00\x00\xfe\xff", b"\xff\xfe\x00\x00", b"\xff", b"\xfe", b"\xef\xbb", b"\x00\x00"]
+
+
+def rand_doc(r):
+    """A document for the constructor: maybe a byte-order mark (or a near miss), maybe an XML declaration naming an
+    encoding in some spelling, maybe tags, then text with smart bytes. Any byte may occur."""
+    out = b""
+    if r.random() < 0.2:
+        out += r.choice(BOMS)
+    if r.random() < 0.25:
+        q = r.choice(["\"", "'"])
+        out += (r.choice(["", " ", "\n"]) + "<?xml version=" + q + "1.0" + q + " encoding=" + q + r.choice(SPELLINGS) + q + "?>").encode()
+    if r.random() < 0.3:
+        out += r.choice([b"<p>", b"<a b='", b"<!--", b"<", b"<meta charset=iso-8859-2>"])
+    body = rand_smart_input(r) if r.random() < 0.8 else bytes(r.randrange(256) for _ in range(r.randrange(0, 10)))
+    if r.random() < 0.5 and out:
+        body = body[1:]          # drop the leading ASCII letter rand_smart_input puts in
+    return out + body
+
+
+def rand_call(r):
+    k = r.random()
+    if k < 0.72:
+        known = [r.choice(SPELLINGS)]
+        if r.random() < 0.2:
+            known.append(r.choice(SPELLINGS))
+        data = rand_doc(r) or b"\x93"
+        return {"k": "ud", "b": list(data), "known": known, "mode": r.choice(MODES)}
+    if k < 0.86:
+        enc = r.choice(SPELLINGS + [None, None])
+        doc = (b"<meta charset=" + r.choice(SPELLINGS).encode() + b">" if r.random() < 0.6 else b"") + b"<p>" + rand_smart_input(r)
+        return {"k": "soup", "b": list(doc), "enc": enc}
+    if k < 0.94:
+        return {"k": "det", "b": list(rand_garbage(r))}
+    return {"k": "fc", "name": r.choice(SPELLINGS)}
+
+
 def rand_garbage(r):
     n = r.randrange(0, 24)
     out = []
@@ -250,13 +493,14 @@ def near_valid_utf8(r):
 # ----------------------------------------------------------------------------------------------
 def run(ctx: Ctx):
     from bs4.dammit import UnicodeDammit as U
-    ctx.rule = ("smart quotes: a case is non-trivial when the input holds at least one byte 0x80-0x9F, a mode is set and the encoding is a "
-                "carrier (distinct (bytes, enc, mode)); detwingle: the input holds at least one multi-byte character (identity cases) or at "
+    ctx.rule = ("smart quotes: a case is non-trivial when the (BOM-stripped) input holds at least one byte 0x80-0x9F, a mode is set and the first "
+                "known encoding is a documented carrier in any letter case (distinct (bytes, known, mode)); histories: every call after the first; detwingle: the input holds at least one multi-byte character (identity cases) or at "
                 "least one convertible byte next to UTF-8 text (embedded cases); garbage/decoder streams count as correspondence only")
     ctx.assumptions = [
-        "UnicodeDammit inputs: non-empty, no byte-order mark, no '<' (no in-document declaration), chardet/charset_normalizer absent, "
-        "lower-case codec names CPython knows: the candidate order is [known, utf-8, windows-1252]",
-        "CPython's single-byte decoders (windows-1252, iso-8859-1, iso-8859-2, latin-1, cp1252, iso-8859-5) are taken as generated tables; "
+        "chardet/charset_normalizer absent; user_encodings/exclude_encodings empty; what find_declared_encoding returns is passed to the model "
+        "as a parameter (the theorems hold for every value of it)",
+        "CPython's single-byte decoders (cp1252, iso8859-1, iso8859-2, iso8859-5, ascii, mac-roman) and its codec registry on a finite universe "
+        "of spellings are taken as generated tables; cases decided by other codecs are counted as 'model-does-not-decide'; "
         "CPython's utf-8 codec is compared with the Lean decoder on every decoder/garbage case",
         "'un-escaping' = html.unescape (and, for xml mode, the reference must be a numeric &#xH; reference)",
     ]
@@ -269,17 +513,172 @@ def run(ctx: Ctx):
     if lean_broken:
         ctx.notes.append("Lean obligations did not build: the exhaustive table oracles below are the search for a failing input")
 
-    # ---------------- A. exhaustive: 32 bytes x 4 modes x (carriers + non-carriers), alone and in context ------------------
     car = carriers()
-    encs = car + [e for e in NON_CARRIERS if e not in car]
     lines, impl, cases = [], [], []
+    single = {}
+
+    def piece(b, enc, mode):
+        key = (b, enc, mode)
+        if key not in single:
+            single[key] = real_markup(bytes([b]), enc, mode)[0]
+        return single[key]
+
+    # ---------------- H. histories: calls in ONE process vs the same call in a pristine process ------------------------------
+    # (run first, and in forked children of a freshly imported bs4, so that nothing this check does earlier can mask or
+    #  cause a dependence on history)
+    r = ctx.rng("history")
+    hists = [v["case"]["calls"] for v in (json.load(open(f)) for f in sorted((CORPUS / "C19").glob("*.json"))) if v["case"].get("op") == "history"]
+    ctx.count("corpus:history", len(hists))
+    # systematic: every spelling once before each canonical carrier name (and the reverse order)
+    for sp in SPELLINGS:
+        for canon in DOCUMENTED_CARRIERS:
+            mode = r.choice(MODES[1:])
+            a = {"k": "ud", "b": [0x61, 0x93, 0x80 + r.randrange(32)], "known": [sp], "mode": r.choice(MODES)}
+            b_ = {"k": "ud", "b": [0x93, 0x9F, 0x62], "known": [canon], "mode": mode}
+            hists.append([a, b_] if r.random() < 0.7 else [b_, a, dict(b_, known=[sp])])
+    # every ordered pair of modes on the same carrier (a conversion remembered from an earlier call would show), through
+    # UnicodeDammit twice and with a BeautifulSoup document in between
+    for canon in DOCUMENTED_CARRIERS:
+        for m1 in MODES:
+            for m2 in MODES:
+                a = {"k": "ud", "b": [0x61, 0x91 + r.randrange(4), 0x85], "known": [canon], "mode": m1}
+                b_ = {"k": "ud", "b": [0x93, 0x80 + r.randrange(32), 0x62], "known": [r.choice([canon, canon.upper()])], "mode": m2}
+                mid = {"k": "soup", "b": list(b"<meta charset=" + canon.encode() + b"><p>\x93"), "enc": r.choice([None, canon])}
+                hists.append([a, b_] if r.random() < 0.5 else [a, mid, b_])
+    # detwingle several times in one process (chunks or positions remembered from an earlier call would show)
+    for _ in range(ctx.n(40, 300)):
+        hists.append([{"k": "det", "b": list(r.choice([rand_garbage(r), b"a\x93b", b"\xe2\x82\xac\x80", "caf\u00e9".encode(), b"\x93"]))}
+                      for _ in range(r.randrange(2, 5))])
+    for _ in range(ctx.n(150, 1500)):
+        hists.append([rand_call(r) for _ in range(r.randrange(2, 7))])
+    uniq = {}
+    for h in hists:
+        for c in h:
+            uniq.setdefault(json.dumps(c, sort_keys=True), c)
+    # the spelling grid: every spelling x every mode x a few inputs, each in a pristine process
+    for v in (json.load(open(f)) for f in sorted((CORPUS / "C19").glob("*.json"))):
+        if v["case"].get("op") == "ud":
+            c = {k: v["case"][k] for k in ("k", "b", "known", "mode")}
+            uniq.setdefault(json.dumps(c, sort_keys=True), c)
+    for sp in SPELLINGS:
+        for mode in MODES:
+            for data in (b"\x93", b"a\x80\x9fz", b"\xef\xbb\xbf<p>\x85", b"\x81\xe9", b"\xef\xbb\xbf", b"\xff\xfe"):
+                c = {"k": "ud", "b": list(data), "known": [sp], "mode": mode}
+                uniq.setdefault(json.dumps(c, sort_keys=True), c)
+    for enc in DOCUMENTED_CARRIERS:
+        for mode in MODES[1:]:
+            for b in range(0x80, 0xA0):
+                c = {"k": "ud", "b": [b], "known": [enc], "mode": mode}
+                uniq.setdefault(json.dumps(c, sort_keys=True), c)
+    keys = list(uniq)
+    fresh = dict(zip(keys, [x[0] for x in pristine([[uniq[k]] for k in keys])]))
+
+    def fresh_piece(b, enc, mode):
+        """conversion of the single byte b in a pristine process (so that state left by earlier calls cannot reach the oracle)"""
+        res = fresh[json.dumps({"k": "ud", "b": [b], "known": [enc], "mode": mode}, sort_keys=True)]
+        return None if isinstance(res, dict) else res[0]
+
+    hres = pristine(hists)
+    ctx.count("history:histories", len(hists))
+    ctx.count("history:pristine-single-calls", len(keys))
+    nbad = 0
+    for h, res in zip(hists, hres):
+        for i, (c, got) in enumerate(zip(h, res)):
+            want = fresh[json.dumps(c, sort_keys=True)]
+            ctx.case(("H", json.dumps(h[:i + 1], sort_keys=True)) if i > 0 else None)
+            ctx.count(f"history:call:{c['k']}")
+            if c["k"] == "ud" and i > 0:
+                bad = ud_call_oracle(c, got, fresh_piece) or markup_attr_oracle(c, got)
+                if bad and (ud_call_oracle(c, want, fresh_piece) or markup_attr_oracle(c, want)):
+                    bad = None      # the same call fails on its own: reported, minimal, by the pristine-ud stream below
+                if bad:
+                    limited(ctx, bad[0] + " (after earlier calls in the same process)", stream="history-oracle",
+                            case={"op": "history", "calls": h[:i + 1]}, expected=bad[1], observed=got if isinstance(got, dict) else got[0])
+            if got != want:
+                nbad += 1
+                if nbad <= 3:
+                    # shrink to one earlier call + the affected call if that reproduces
+                    minimal = h[:i + 1]
+                    for j in range(i):
+                        two = pristine([[h[j], c]])[0]
+                        if two[1] != want:
+                            minimal = [h[j], c]
+                            got = two[1]
+                            break
+                    ctx.violation("the result of a call depends on earlier calls in the same process", stream="history",
+                                  case={"op": "history", "calls": minimal}, expected=want, observed=got)
+    spelling_obs = {}
+    for k in keys:
+        c, res = uniq[k], fresh[k]
+        if c["k"] != "ud":
+            continue
+        known, mode, data = c["known"], c["mode"], bytes(c["b"])
+        nontriv = expected_carrier(known[0]) and mode is not None and any(0x80 <= x <= 0x9F for x in strip_bom_oracle(data))
+        ctx.case(("U", k) if nontriv else None)
+        ctx.count("pristine-ud:" + ("carrier-spelling+mode+smart" if nontriv else "other"))
+        if isinstance(res, dict):
+            ctx.violation("the constructor raised " + res.get("exc", "?"), stream="pristine-ud", case={"op": "ud", **c},
+                          expected="a result", observed=res)
+            continue
+        bad = ud_call_oracle(c, res, fresh_piece)
+        if bad:
+            limited(ctx, bad[0], stream="pristine-ud", case={"op": "ud", **c}, expected=bad[1], observed=res[0])
+        bad = markup_attr_oracle(c, res)
+        if bad:
+            limited(ctx, bad[0], stream="pristine-ud", case={"op": "ud", **c}, expected=bad[1], observed=res[3])
+        lines.append(dammit_line(data, known, mode)); impl.append(show_dammit(*res[:3])); cases.append({"op": "ud", **c})
+        # record what the code does with spellings the property does not name
+        if len(data) == 1 and mode == "xml" and not expected_carrier(known[0]):
+            spelling_obs[known[0]] = {"find_codec->original_encoding": res[2], "converted": res[0] != data.decode("latin-1") and "&" in (res[0] or "")}
+    ctx.extra["spellings_outside_the_documented_three"] = spelling_obs
+
+    # ---------------- F. find_codec on the whole generated universe of spellings; strip_byte_order_mark -----------------------
+    import importlib, sys as _sys
+    from .common import VERIF
+    if str(VERIF / "translate") not in _sys.path:
+        _sys.path.insert(0, str(VERIF / "translate"))
+    universe = importlib.import_module("parts_c19").name_universe()
+    from bs4.dammit import EncodingDetector
+    flines, fimpl, fcases = [], [], []
+    probe = U(b"x")
+    for name in universe:
+        got = probe.find_codec(name)
+        flines.append(f"c19 findcodec {S(name)}")
+        fimpl.append(f"{'none' if got is None else 'some ' + S(got)} listed=1 carrier={1 if got in U.ENCODINGS_WITH_SMART_QUOTES else 0}")
+        fcases.append({"op": "findcodec", "name": name})
+        ctx.case(None)
+        ctx.count("findcodec:" + ("carrier" if got in U.ENCODINGS_WITH_SMART_QUOTES else "other"))
+        # the documented names, in any letter case, must be recognised as carriers
+        if expected_carrier(name) and got not in DOCUMENTED_CARRIERS:
+            ctx.violation(f"find_codec({name!r}) = {got!r}: a documented smart-quote encoding is not recognised", stream="findcodec",
+                          case={"op": "findcodec", "name": name}, expected=name.lower(), observed=got)
+    r = ctx.rng("bom")
+    for i in range(ctx.n(600, 6000)):
+        data = r.choice(BOMS + [b""]) + bytes(r.choice([0, 0, 0xFE, 0xFF, 0xEF, 0xBB, 0xBF, 0x93, 0x41]) for _ in range(r.randrange(0, 5)))
+        got, enc = EncodingDetector.strip_byte_order_mark(data)
+        flines.append(f"c19 stripbom {L(data)}")
+        fimpl.append(f"{L(got)} {'none' if enc is None else 'some ' + S(enc)}")
+        fcases.append({"op": "stripbom", "bytes": list(data)})
+        ctx.case(None)
+        ctx.count("stripbom:" + ("stripped" if enc else "none"))
+        if got != strip_bom_oracle(data):
+            ctx.violation("strip_byte_order_mark differs from the documented byte-order marks", stream="stripbom",
+                          case={"op": "stripbom", "bytes": list(data)}, expected=list(strip_bom_oracle(data)), observed=list(got))
+    for l, a, m, c in zip(flines, fimpl, drv.ask(flines), fcases):
+        if a != m:
+            ctx.corr_disagreements += 1
+            limited(ctx, "model and implementation disagree (" + c["op"] + ")", case=c | {"line": l}, observed=a, model=m,
+                    stream="findcodec-correspondence", no_failing_input=True)
+
+    # ---------------- A. exhaustive: 32 bytes x 4 modes x (carriers + non-carriers), alone and in context ------------------
+    encs = car + [e for e in NON_CARRIERS if e not in car]
     undefined_record = {}
     for enc in encs:
         for mode in MODES:
             for b in range(0x80, 0xA0):
                 data = bytes([b])
-                u, repl = real_markup(data, enc, mode)
-                lines.append(markup_line(data, enc, mode)); impl.append(show_markup(u, repl))
+                u, repl, o_u = real_dammit(data, [enc], mode)
+                lines.append(dammit_line(data, [enc], mode)); impl.append(show_dammit(u, repl, o_u))
                 case = {"op": "smart", "enc": enc, "mode": mode, "bytes": list(data)}
                 cases.append(case)
                 nontriv = enc in car and mode is not None
@@ -296,23 +695,24 @@ def run(ctx: Ctx):
                                       case=case, expected=want, observed=u, stream="smart-exhaustive")
                 else:
                     # a non-carrier encoding: the mode must make no difference (plain decoding / fallback chain)
-                    u0, repl0 = real_markup(data, enc, None)
+                    u0, repl0, o_u0 = real_dammit(data, [enc], None)
                     if enc != "cp1252" and (u, repl) != (u0, repl0):
                         # (for 'cp1252' the fallback candidate 'windows-1252' is itself a carrier, so a mode may show after a failed strict decode)
                         ctx.violation(f"non-carrier encoding {enc}: smart_quotes_to={mode!r} changed the result", case=case,
                                       expected=u0, observed=u, stream="smart-exhaustive")
                 # in context: the surrounding text is untouched
                 if enc in car and mode is not None:
-                    for pre, post in ((b"a", b"z"), (b"q&amp;", b";1")):
+                    for pre, post in ((b"a", b"z"), (b"q&amp;", b";1"), (data, b""), (b"\x93", b"\x94")):
                         d2 = pre + data + post
-                        u2, repl2 = real_markup(d2, enc, mode)
-                        lines.append(markup_line(d2, enc, mode)); impl.append(show_markup(u2, repl2))
+                        u2, repl2, o_u2 = real_dammit(d2, [enc], mode)
+                        lines.append(dammit_line(d2, [enc], mode)); impl.append(show_dammit(u2, repl2, o_u2))
                         c2 = {"op": "smart", "enc": enc, "mode": mode, "bytes": list(d2)}
                         cases.append(c2)
                         ctx.case(("A2", enc, mode, d2))
-                        if u is not None and u2 != pre.decode() + u + post.decode():
-                            ctx.violation("surrounding text changed by the smart-quote conversion", case=c2,
-                                          expected=pre.decode() + u + post.decode(), observed=u2, stream="smart-exhaustive")
+                        want2 = whole_input_oracle(d2, enc, mode, piece)[0]
+                        if u is not None and u2 != want2:
+                            ctx.violation("in context: the result is not the in-order concatenation of each byte's conversion", case=c2,
+                                          expected=want2, observed=u2, stream="smart-exhaustive")
     ctx.extra["undefined_cp1252_bytes_observed"] = undefined_record
     corpus = [json.load(open(f)) | {"file": f.name} for f in sorted((CORPUS / "C19").glob("*.json"))]
     for v in corpus:
@@ -320,8 +720,8 @@ def run(ctx: Ctx):
         if c.get("op") != "smart":
             continue
         data, enc, mode = bytes(c["bytes"]), c["enc"], c["mode"]
-        u, repl = real_markup(data, enc, mode)
-        lines.append(markup_line(data, enc, mode)); impl.append(show_markup(u, repl)); cases.append(c)
+        u, repl, o_u = real_dammit(data, [enc], mode)
+        lines.append(dammit_line(data, [enc], mode)); impl.append(show_dammit(u, repl, o_u)); cases.append(c)
         ctx.case(("corpus", v["file"]))
         ctx.count("corpus:smart")
         if enc in car and mode is not None:
@@ -357,22 +757,15 @@ def run(ctx: Ctx):
                           stream="unescape-correspondence", no_failing_input=True)
 
     # ---------------- B. random whole inputs through UnicodeDammit --------------------------------------------------------
+    ulines2, uimpl2, ucases2 = [], [], []
     r = ctx.rng("smart-random")
     nB = ctx.n(6000, 60000)
-    single = {}
-
-    def piece(b, enc, mode):
-        key = (b, enc, mode)
-        if key not in single:
-            single[key] = real_markup(bytes([b]), enc, mode)[0]
-        return single[key]
-
     for i in range(nB):
         data = rand_smart_input(r)
         enc = r.choice(encs) if r.random() < 0.25 else r.choice(car)
         mode = r.choice(MODES) if r.random() < 0.3 else r.choice(MODES[1:])
-        u, repl = real_markup(data, enc, mode)
-        lines.append(markup_line(data, enc, mode)); impl.append(show_markup(u, repl))
+        u, repl, o_u = real_dammit(data, [enc], mode)
+        lines.append(dammit_line(data, [enc], mode)); impl.append(show_dammit(u, repl, o_u))
         case = {"op": "smart", "enc": enc, "mode": mode, "bytes": list(data)}
         cases.append(case)
         has_smart = any(0x80 <= b <= 0x9F for b in data)
@@ -391,11 +784,55 @@ def run(ctx: Ctx):
                 limited(ctx, f"whole input: the conversion of byte(s) {[hex(b) for b in badb]} does not denote their Windows-1252 character",
                         case=case, expected="each byte 0x80-0x9F replaced by a reference to its cp1252 character", observed=u,
                         stream="smart-random")
+            # the whole-string clause: un-escaping the result gives the characters (inputs without a literal '&' whose
+            # bytes 0x80-0x9F are all defined in Windows-1252)
+            if mode in ("xml", "html") and 0x26 not in data and all(cp1252_char(b) is not None for b in data if 0x80 <= b <= 0x9F) and u is not None:
+                meant = "".join(cp1252_char(b) if 0x80 <= b <= 0x9F else bytes([b]).decode(enc) for b in data)
+                ctx.count("smart-random:unescape-whole")
+                if html.unescape(u) != meant:
+                    limited(ctx, "un-escaping the converted text does not give the characters of the input", case=case,
+                            expected=meant, observed=html.unescape(u), stream="smart-random")
+                ulines2.append(f"c19 unescapeall {S(u)}"); uimpl2.append(S(html.unescape(u))); ucases2.append({"op": "unescapeall", "text": u})
+    rep = drv.ask(ulines2)
+    for l, a, m, c in zip(ulines2, uimpl2, rep, ucases2):
+        if a != m:
+            ctx.corr_disagreements += 1
+            limited(ctx, "Lean unescapeAll disagrees with html.unescape on a converted text", case=c | {"line": l}, observed=a, model=m,
+                    stream="unescape-correspondence", no_failing_input=True)
+
+    # ---------------- B2. random constructor calls: byte-order marks, declarations, tags, spellings, two known encodings ----
+    r = ctx.rng("ud-random")
+    for i in range(ctx.n(4000, 40000)):
+        c = rand_call(r)
+        while c["k"] != "ud":
+            c = rand_call(r)
+        data, known, mode = bytes(c["b"]), c["known"], c["mode"]
+        try:
+            res = list(real_dammit(data, known, mode))
+        except Exception as e:
+            limited(ctx, f"the constructor raised {type(e).__name__}", stream="ud-random", case={"op": "ud", **c}, expected="a result", observed=repr(e))
+            continue
+        nontriv = expected_carrier(known[0]) and mode is not None and any(0x80 <= x <= 0x9F for x in strip_bom_oracle(data))
+        ctx.case(("B2", json.dumps(c, sort_keys=True)) if nontriv else None)
+        ctx.count("ud-random:" + ("carrier-spelling+mode+smart" if nontriv else "other"))
+        if strip_bom_oracle(data) != data:
+            ctx.count("ud-random:bom-stripped")
+        if b"<" in data:
+            ctx.count("ud-random:has-lt")
+        if declared_of(data):
+            ctx.count("ud-random:declares-encoding")
+        bad = ud_call_oracle(c, res, piece)
+        if bad:
+            limited(ctx, bad[0], stream="ud-random", case={"op": "ud", **c}, expected=bad[1], observed=res[0])
+        lines.append(dammit_line(data, known, mode)); impl.append(show_dammit(*res)); cases.append({"op": "ud", **c})
     # correspondence for A + B
     rep = drv.ask(lines)
     nd = 0
     for l, a, m, c in zip(lines, impl, rep, cases):
-        if a != m:
+        agree = model_agrees(a, m)
+        if agree is None:
+            ctx.count("smart:model-does-not-decide")
+        elif not agree:
             nd += 1
             ctx.corr_disagreements += 1
             already = any(v["case"] == c for v in ctx.violations)
@@ -527,11 +964,37 @@ def run(ctx: Ctx):
     for i in range(ctx.n(4000, 50000)):
         data = rand_garbage(r)
         try:
-            det_case(data, "detwingle-garbage")
+            out = det_case(data, "detwingle-garbage")
+            # the all-inputs clauses, directly on the real code
+            again = real_detwingle(out)
+            if again != out:
+                limited(ctx, "detwingle is not idempotent", stream="detwingle-garbage", case={"op": "detwingle", "bytes": list(data), "clause": "idempotent"},
+                        expected=out.hex(), observed=again.hex())
+            if not replaced_only(data, out, conv):
+                limited(ctx, "detwingle altered something other than an embedded Windows-1252 byte", stream="detwingle-garbage",
+                        case={"op": "detwingle", "bytes": list(data), "clause": "replaced-only"}, expected="input with embeddable bytes replaced", observed=out.hex())
+            valid = py_utf8_decode(out) is not None
+            if valid != parses_as_text_with_embedded_bytes(data, conv):
+                limited(ctx, "detwingle: output validity does not match 'input is UTF-8 text with embedded Windows-1252 bytes'", stream="detwingle-garbage",
+                        case={"op": "detwingle", "bytes": list(data), "clause": "valid-iff"}, expected=f"valid UTF-8: {not valid}", observed=out.hex())
+            ctx.count("detwingle:garbage:" + ("output-valid" if valid else "output-invalid"))
         except Exception as e:  # the real code is total on bytes; anything else is a finding
             ctx.violation(f"detwingle raised {type(e).__name__} on a byte string", case={"op": "detwingle", "bytes": list(data)},
                           expected="a bytes result", observed=repr(e), stream="detwingle-garbage")
         ctx.count("detwingle:garbage")
+    # argument forms: bytearray / memoryview give the same bytes
+    for data in [b"a\x93b", b"\xe2\x82\xac", b"plain", b"\x80\xff\xc0", b""]:
+        want = real_detwingle(data)
+        for form in (bytearray, memoryview):
+            try:
+                got = bytes(U.detwingle(form(data)))
+            except Exception as e:
+                got = repr(e)
+            ctx.case(None)
+            ctx.count("detwingle:argform:" + form.__name__)
+            if got != want:
+                ctx.violation(f"detwingle({form.__name__}) differs from detwingle(bytes)", case={"op": "detwingle", "bytes": list(data), "form": form.__name__},
+                              expected=want.hex(), observed=got if isinstance(got, str) else got.hex(), stream="detwingle-argform")
     # argument checks
     for main, emb in [("utf8", "windows-1252"), ("UTF-8", "WINDOWS_1252"), ("utf-8", "windows_1252"), ("Utf8", "Windows-1252"),
                       ("latin-1", "windows-1252"), ("utf8", "iso-8859-1"), ("utf8", "cp1252"), ("utf_8", "windows-1252")]:
@@ -570,6 +1033,11 @@ def run(ctx: Ctx):
 
 
 # ----------------------------------------------------------------------------------------------
+def pristine_piece(b, enc, mode):
+    res = pristine([[{"k": "ud", "b": [b], "known": [enc], "mode": mode}]])[0][0]
+    return None if isinstance(res, dict) else res[0]
+
+
 def replay(path):
     v = json.load(open(path))
     c = v["case"]
@@ -577,7 +1045,7 @@ def replay(path):
     if op == "smart":
         data = bytes(c["bytes"])
         enc, mode = c["enc"], c["mode"]
-        u, repl = real_markup(data, enc, mode)
+        u, repl, o_u = real_dammit(data, [enc], mode)
         print(f"UnicodeDammit({data!r}, [{enc!r}], smart_quotes_to={mode!r}).unicode_markup = {u!r}")
         print("property demands:", v.get("expected"))
         if enc in carriers() and mode is not None:
@@ -588,11 +1056,38 @@ def replay(path):
         if enc in carriers() and len(data) == 1:
             return 1 if smart_oracle(data[0], enc, mode, u)[0] is False else 0
         return 1 if v.get("expected") is not None and u != v["expected"] else 0
+    if op == "history":
+        calls = c["calls"]
+        hist = pristine([calls])[0]
+        alone = pristine([[calls[-1]]])[0][0]
+        print("history:", json.dumps(calls))
+        print("last call, after the history :", json.dumps(hist[-1]))
+        print("last call, in a fresh process:", json.dumps(alone))
+        bad = hist[-1] != alone
+        if calls[-1]["k"] == "ud":
+            o = ud_call_oracle(calls[-1], hist[-1], pristine_piece) or markup_attr_oracle(calls[-1], hist[-1])
+            if o:
+                print("property:", o[0], "; demanded:", o[1])
+                bad = True
+        return 1 if bad else 0
+    if op == "ud":
+        res = pristine([[{k: c[k] for k in ("k", "b", "known", "mode")}]])[0][0]
+        print("UnicodeDammit(%r, %r, smart_quotes_to=%r) ->" % (bytes(c["b"]), c["known"], c["mode"]), json.dumps(res))
+        o = ud_call_oracle(c, res, pristine_piece) or markup_attr_oracle(c, res)
+        if o:
+            print("property:", o[0], "; demanded:", o[1])
+        return 1 if o else 0
     if op == "detwingle":
         data = bytes(c["bytes"])
         out = real_detwingle(data)
         print(f"detwingle({data!r}) = {out!r}")
         print("property demands (hex):", v.get("expected"), " observed (hex):", out.hex())
+        if c.get("clause"):
+            conv = convertible_bytes()
+            ok = (real_detwingle(out) == out and replaced_only(data, out, conv)
+                  and (py_utf8_decode(out) is not None) == parses_as_text_with_embedded_bytes(data, conv))
+            print("all-input clauses (idempotent, replaced-only, valid-iff) hold:", ok)
+            return 0 if ok else 1
         if v.get("expected") is not None and not v.get("no_failing_input_found"):
             return 0 if out.hex() == v["expected"] else 1
         return 1
